@@ -354,10 +354,13 @@ def _small_model(o, s, g):
         return None
     try:
         lens = _len_consts(list(o.hyps) + [g])
-        if lens:
+        ints = _int_consts(list(o.hyps) + [g])
+        if lens or ints:
             for bound in (4, 12):
                 s.push()
                 s.set("timeout", 3000)
+                for c in ints:          # small scalars too (sizes, counts)
+                    s.add(c <= 2 * bound, c >= -2 * bound)
                 for ln in lens:
                     s.add(ln <= bound)
                 if s.check() == z3.sat:
@@ -620,6 +623,25 @@ def _expand(f, pol, N, cache):
         return z3.Implies(_expand(ch[0], -pol, N, cache),
                           _expand(ch[1], pol, N, cache))
     return f
+
+
+def _int_consts(fs):
+    out = {}
+    seen = set()
+    stack = list(fs)
+    while stack:
+        t = stack.pop()
+        if t.get_id() in seen:
+            continue
+        seen.add(t.get_id())
+        if z3.is_quantifier(t):
+            stack.append(t.body())
+            continue
+        if z3.is_const(t) and t.decl().kind() == z3.Z3_OP_UNINTERPRETED \
+                and z3.is_int(t):
+            out[t.decl().name()] = t
+        stack.extend(t.children())
+    return list(out.values())
 
 
 def _len_consts(fs):
